@@ -8,7 +8,7 @@ Require Import PV.Proofs.NarrowBasics PV.Proofs.NarrowLift PV.Proofs.NarrowLeave
 (* ---- the guard, split ---- *)
 Lemma c02_guard_split : forall c o, c02_guard c o = true ->
   wf_obj o = true /\ cond_ok c o = true /\ multiple_inheritance o = false /\
-  subclass_bool o = false /\ promotion_negative c o = false.
+  subclass_bool o = false /\ promotion_negative c o = false /\ enum_class_object o = false.
 Proof.
   intros c o H. unfold c02_guard in H.
   repeat (apply andb_true_iff in H; destruct H as [H ?]).
@@ -18,8 +18,9 @@ Qed.
 
 Lemma c02_guard_join : forall c o,
   wf_obj o = true -> cond_ok c o = true -> multiple_inheritance o = false ->
-  subclass_bool o = false -> promotion_negative c o = false -> c02_guard c o = true.
-Proof. intros c o H1 H2 H3 H4 H5. unfold c02_guard. rewrite H1, H2, H3, H4, H5. reflexivity. Qed.
+  subclass_bool o = false -> promotion_negative c o = false -> enum_class_object o = false ->
+  c02_guard c o = true.
+Proof. intros c o H1 H2 H3 H4 H5 H6. unfold c02_guard. rewrite H1, H2, H3, H4, H5, H6. reflexivity. Qed.
 
 Definition P (c : cond) (pol : bool) (o : obj) : Prop :=
   holds c o = Some pol /\ c02_guard c o = true.
@@ -76,8 +77,8 @@ Proof. destruct l; simpl; intros H; try discriminate; reflexivity. Qed.
 (* ---- every condition kind, both polarities ---- *)
 Ltac guard_parts H :=
   let Hw := fresh "Hw" in let Hok := fresh "Hok" in let Hmi := fresh "Hmi" in
-  let Hsb := fresh "Hsb" in let Hpn := fresh "Hpn" in
-  destruct (c02_guard_split _ _ H) as [Hw [Hok [Hmi [Hsb Hpn]]]].
+  let Hsb := fresh "Hsb" in let Hpn := fresh "Hpn" in let Hec := fresh "Hec" in
+  destruct (c02_guard_split _ _ H) as [Hw [Hok [Hmi [Hsb [Hpn Hec]]]]].
 
 Ltac weaken L := eapply ksound_weaken; [|apply L]; cbv beta; intros o [Hh Hg].
 
@@ -93,17 +94,17 @@ Proof.
   - (* isinstance *)
     split; apply asound_leaf.
     + weaken (isassign_pos_sound (map VTyped cs) false). guard_parts Hg. simpl in Hh. injection Hh as Hh'.
-      split; [apply isinst_member; exact Hh'|assumption].
+      split; [apply isinst_member; exact Hh'|split; assumption].
     + weaken (isassign_neg_sound (map VTyped cs) false (no_vtuple_typed cs)).
       guard_parts Hg. simpl in Hh. injection Hh as Hh'.
-      apply not_isinst_not_member; [exact Hh'|exact Hpn].
+      split; [apply not_isinst_not_member; [exact Hh'|exact Hpn]|split; assumption].
   - (* issubclass *)
     split; apply asound_leaf.
     + weaken (isassign_pos_sound (map VSub cs) false). guard_parts Hg. simpl in Hh. destruct o; try discriminate.
-      injection Hh as Hh'. split; [apply sub_member; exact Hh'|assumption].
+      injection Hh as Hh'. split; [apply sub_member; exact Hh'|split; assumption].
     + weaken (isassign_neg_sound (map VSub cs) false (no_vtuple_sub cs)).
       guard_parts Hg. simpl in Hh. destruct o; try discriminate.
-      injection Hh as Hh'. apply not_sub_not_member; [exact Hh'|exact Hpn].
+      injection Hh as Hh'. split; [apply not_sub_not_member; [exact Hh'|exact Hpn]|split; assumption].
   - (* is *)
     split; apply asound_leaf.
     + destruct (atomic l) eqn:Hat.
@@ -155,9 +156,11 @@ Proof.
       injection Hh as Hh'. exists k. split; [reflexivity|]. rewrite eval_neg_op, Hh'. reflexivity.
   - (* TypeIs *)
     split; apply asound_leaf.
-    + weaken (isassign_pos_sound t false). guard_parts Hg. simpl in Hh. injection Hh as Hh'. split; assumption.
+    + weaken (isassign_pos_sound t false). guard_parts Hg. simpl in Hh. injection Hh as Hh'.
+      split; [assumption|split; assumption].
     + destruct (forallb (fun p => negb (is_vtuple p)) t) eqn:Hvt.
-      * weaken (isassign_neg_sound t false Hvt). simpl in Hh. injection Hh as Hh'. exact Hh'.
+      * weaken (isassign_neg_sound t false Hvt). guard_parts Hg. simpl in Hh. injection Hh as Hh'.
+        split; [exact Hh'|split; assumption].
       * intros s o Hm [Hh Hg]. guard_parts Hg. simpl in Hok. exfalso.
         apply andb_true_iff in Hok. destruct Hok as [_ Hok].
         assert (forallb (fun p => negb (is_vtuple p)) t = true).
@@ -171,8 +174,9 @@ Proof.
   - (* case c(): *)
     split; apply asound_leaf.
     + weaken (isassign_pos_sound [VTyped c0] true). guard_parts Hg. simpl in Hh. injection Hh as Hh'.
-      split; [|assumption]. simpl. unfold isinst in Hh'. rewrite (sub_sub_art _ _ Hh'). reflexivity.
+      split; [|split; assumption]. simpl. unfold isinst in Hh'. rewrite (sub_sub_art _ _ Hh'). reflexivity.
     + weaken (isassign_neg_sound [VTyped c0] true eq_refl). guard_parts Hg. simpl in Hh. injection Hh as Hh'.
+      split; [|split; assumption].
       simpl. rewrite orb_false_r. simpl in Hpn. unfold promoted_obj in Hpn. unfold isinst in Hh'.
       rewrite Hh' in Hpn. simpl in Hpn. rewrite andb_true_r in Hpn. exact Hpn.
   - (* case _: *)
@@ -260,6 +264,14 @@ Lemma multiple_inheritance_refuted :
     multiple_inheritance o = true /\ member o (narrow V c pol) = false.
 Proof.
   exists [plain (VTyped CA)], (CIsInstance [CC]), true, (OInst CAC 0%N).
+  vm_compute. repeat split; reflexivity.
+Qed.
+
+Lemma enum_class_object_refuted :
+  exists V c pol o, wf_obj o = true /\ cond_ok c o = true /\ member o V = true /\ holds c o = Some pol /\
+    enum_class_object o = true /\ member o (narrow V c pol) = false.
+Proof.
+  exists [plain (VKnown (OClass CIE))], (CIsSubclass [CInt]), true, (OClass CIE).
   vm_compute. repeat split; reflexivity.
 Qed.
 
